@@ -43,13 +43,31 @@ struct Corpus {
    }
 };
 
-enum SrcKind { SRC_STDIN, SRC_PATH, SRC_MISSING, SRC_DIR, SRC_EMPTYNAME, SRC_NONE, SRC_MISSING_LONG };
+enum SrcKind { SRC_STDIN, SRC_PATH, SRC_MISSING, SRC_DIR, SRC_EMPTYNAME, SRC_NONE, SRC_MISSING_LONG, SRC_TILDE };
+/// simulated process environment (what getenv() answers): 0 ordinary, 1 empty (every variable unset), 2 every known
+/// variable set to "", 3 every known variable 4096 characters long, 4 odd values
+constexpr int N_ENV_MODES = 5;
+static const char* const ENV_NAMES[] = {"HOME", "PATH", "LANG", "LC_ALL", "LC_NUMERIC", "USER", "LOGNAME", "TMPDIR", "PWD", "SHELL", "TERM", "COLUMNS", "LINES", "GM2CALC_VERBOSE", "NO_COLOR"};
+inline const char* simulated_env(int mode, const std::string& name)
+{
+   static const std::string longv(4096, 'e');
+   bool known = false; for (const char* n : ENV_NAMES) known = known || name == n;
+   switch (mode) {
+   case 1: return nullptr;
+   case 2: return known ? "" : nullptr;
+   case 3: return known ? longv.c_str() : nullptr;
+   case 4: return !known ? nullptr : name == "HOME" ? "~" : name == "TMPDIR" ? "/nonexistent/\xff" : name == "COLUMNS" ? "-1" : name == "LANG" || name == "LC_ALL" || name == "LC_NUMERIC" ? "de_DE.UTF-8" : "\n";
+   default: return name == "HOME" ? "/home/user" : name == "PATH" ? "/usr/bin:/bin" : name == "LANG" ? "C" : name == "USER" || name == "LOGNAME" ? "user" : name == "TMPDIR" ? "/tmp" : name == "PWD" ? "/" : name == "SHELL" ? "/bin/sh" : name == "TERM" ? "dumb" : nullptr;
+   }
+}
 
 struct Scenario {
    std::string doc;
    std::string type = "slha";       ///< input-type option used
    SrcKind src = SRC_STDIN;
    std::vector<std::string> pre_args, post_args; ///< extra argv elements before/after the input option
+   int env_mode = 0;                ///< simulated process environment, see simulated_env()
+   int tilde_kind = 0;              ///< SRC_TILDE: which spelling
    bool materialise_file = false;   ///< write the document to <dir>/input.in even if the input option does not name it (raw command lines refer to it)
    std::string longname;            ///< SRC_MISSING_LONG: name (relative to the simulated directory) of a file that cannot be opened
    uint64_t chunk_seed = 0; unsigned chunk_max = 0; ///< stdin delivery schedule (0 = all at once)
@@ -92,6 +110,7 @@ static const char* const REPLACEMENTS[] = {"nan", "inf", "-inf", "1e400", "1e-40
                                            "+1", "1e+", "1.e1", ".5", "1,5", "--1", "1_000", "0x1p3", "1#2", "1e0", "1.0", "NaN", "INF", "infinity", "nan(0x1)",
                                            "1.7976931348623159e308", "4.9e-324", "9223372036854775807", "9223372036854775808", "-9223372036854775809", "18446744073709551616",
                                            "2147483647", "-2147483648", "\xef\xbc\x91", "1e99999999999999999999",
+                                           "1e20", "1e50", "1e100", "1e150", "1e-20", "1e-50", "1e-100", "-1e100", "1e-200", // finite, far from any physical scale: three-digit exponents in the results
                                            "111111111111111111111111111111111111111111111111111111111111111111111111111111111111111111111111111111111111111111111111111111111111111111111111111111111111111111111111111111111111111111111111111111111111111111111111111111111111111111111111111111111111111111111111111111111111111111111111111111111111111111111111111111111111111111111111111111111111111111111111.5"};
 constexpr int N_REPL = sizeof(REPLACEMENTS) / sizeof(REPLACEMENTS[0]);
 /// alphabet of the raw command lines (enumeration CMDLINE: every sequence of up to three atoms)
@@ -101,13 +120,14 @@ static const char* const CMD_ATOMS[] = {
    "--slha-input-file=<FILE>", "--gm2calc-input-file=<FILE>", "--thdm-input-file=<FILE>",
    "--slha-input-file=<MISSING>", "--thdm-input-file=<DIR>", "--gm2calc-input-file=", "--slha-input-file",
    "--slha-input-file=-x", "--SLHA-INPUT-FILE=-", "-slha-input-file=-", "--slha-input-file==-", "--slha-input=-", "--thdm-input-file=--help",
+   "--slha-input-file=~/input.in", "--thdm-input-file=~", "--gm2calc-input-file=~nobody/x",
    "--help=1", "--helpx", "-hv", "--", "-", "", " ", "--thdm-input-file=-\n", "\xff\xfe", "=", "--=", "-v-", "--versio", "--h", "--gm2calc-input-file=<FILE>/", "--slha-input-file=<FILE> "};
 constexpr int N_ATOMS = sizeof(CMD_ATOMS) / sizeof(CMD_ATOMS[0]);
 static const double SCALES[] = {-1, 0.001, 0.1, 0.5, 0.9, 1.1, 2, 10, 1000, 1e6};
 constexpr int N_SCALE = sizeof(SCALES) / sizeof(SCALES[0]);
 constexpr int N_REPL_ENUM = N_REPL; ///< all kinds are enumerated exhaustively
 
-inline void note_fault(Scenario& s, const char* k)
+inline void note_fault(Scenario& s, const std::string& k)
 {
    if (std::find(s.fault_kinds.begin(), s.fault_kinds.end(), k) == s.fault_kinds.end()) s.fault_kinds.push_back(k);
 }
@@ -314,6 +334,7 @@ inline void apply_op(Scenario& s, const Corpus& corpus, const std::vector<std::s
       else if (k == "dir") { s.src = SRC_DIR; note_fault(s, "source_is_directory"); }
       else if (k == "emptyname") { s.src = SRC_EMPTYNAME; note_fault(s, "empty_source_name"); }
       else if (k == "none") { s.src = SRC_NONE; note_fault(s, "no_input_option"); }
+      else if (k == "tilde") { s.src = SRC_TILDE; s.tilde_kind = (int)(((num(2) % 4) + 4) % 4); note_fault(s, "tilde_path"); }
       else if (k == "missinglong") {
          // a name that cannot be opened, of a chosen length: one long component (ENAMETOOLONG beyond 255) or nested short ones (ENOENT)
          const size_t len = (size_t)std::min<long long>(std::max<long long>(1, num(2)), 65536);
@@ -327,6 +348,9 @@ inline void apply_op(Scenario& s, const Corpus& corpus, const std::vector<std::s
       if (a == "<empty>") a = "";
       (op == "arg" ? s.post_args : s.pre_args).push_back(a);
       note_fault(s, "extra_argument");
+   } else if (op == "env") {
+      s.env_mode = (int)(((num(1) % N_ENV_MODES) + N_ENV_MODES) % N_ENV_MODES);
+      if (s.env_mode) note_fault(s, "process_environment_" + std::string(s.env_mode == 1 ? "empty" : s.env_mode == 2 ? "empty_strings" : s.env_mode == 3 ? "long_values" : "odd_values"));
    } else if (op == "rawarg") {
       // rawarg K: one atom of the command-line alphabet, appended as it is; <FILE>, <MISSING>, <DIR> are replaced by
       // paths of the simulated file system when the program is started
@@ -418,7 +442,9 @@ inline std::vector<std::string> gen_plan(const Corpus& corpus, uint64_t seed, st
       }
    };
    auto env_op = [&]() -> std::string {
-      switch (r.below(13)) {
+      switch (r.below(15)) {
+      case 13: return "env " + std::to_string(1 + r.below(N_ENV_MODES - 1));
+      case 14: return "src tilde " + std::to_string(r.below(4));
       case 12: return "rawarg " + std::to_string(r.below(N_ATOMS));
       case 10: { static const long lens[] = {64, 200, 219, 220, 255, 256, 257, 300, 511, 512, 1023, 1024, 4095, 4096, 4097, 20000, 65536};
                  return "src missinglong " + std::to_string(r.chance(0.6) ? lens[r.below(17)] : (long)(1 + r.below(1200))) + " " + std::to_string(r.below(2)); }
